@@ -167,6 +167,7 @@ def match_known(pid, v, case, known):
 
 def run(pid, tier):
     t0 = time.time()
+    os.environ["VERIF_ACTIVE_TIER"] = tier
     seed = int(os.environ.get("VERIF_SEED", "1"))
     prop = importlib.import_module("vf.props." + pid)
     budget = prop.WALL.get(tier, 60) if hasattr(prop, "WALL") else (50 if tier == "quick" else 540)
